@@ -151,6 +151,12 @@ func c07apply1(op string, x c06cell) c06cell {
 		switch op {
 		case "len":
 			return c06cell{typ: "int", i: function.LenS(x.ptr())}
+		case "upper":
+			p := function.UpperS(x.ptr())
+			if p == nil {
+				return c06cell{typ: "string", null: true}
+			}
+			return c06cell{typ: "string", s: *p}
 		case "us":
 			p := c06ufS("us", x.ptr())
 			if p == nil {
@@ -344,5 +350,42 @@ func VX_C07_ctx() {
 			vx.Check(v.ItemAt(row) == cols[0].i[ix[row]]+c, "builtin + is still addition in the default context")
 		}
 	}
+	vx.Reach("end")
+}
+
+// VX_C07_upper: the default context's string functions on enum and string columns (concrete cells;
+// the solver only picks the row arrangement): the result is a string column whatever the operand is.
+func VX_C07_upper() {
+	P := 3
+	ec := vxCol{typ: "enum", s: []string{"b", "", "c"}, null: []bool{false, true, false}}
+	sc := vxCol{typ: "string", s: []string{"x", "yY", ""}, null: []bool{false, false, true}}
+	ix := vxConcIndex(2, P)
+	f := vxFrame([]string{"e", "s"}, []vxCol{ec, sc}, ix)
+	up := func(c vxCol, f func(*string) *string) vxCol {
+		out := vxCol{typ: "string", s: make([]string, P), null: make([]bool, P)}
+		for p := 0; p < P; p++ {
+			r := f(c06get(c, p).ptr())
+			out.null[p] = r == nil
+			if r != nil {
+				out.s[p] = *r
+			}
+		}
+		return out
+	}
+	r1 := f.Eval("u", Expr("upper", types.ColumnName("e")))
+	vxCheckFrame(r1, []string{"e", "s", "u"}, []vxCol{ec, sc, up(ec, function.UpperS)}, ix, "upper of an enum column is a string column")
+	r2 := f.Eval("u", Expr("+", Expr("upper", types.ColumnName("e")), types.ColumnName("s")))
+	cat := vxCol{typ: "string", s: make([]string, P), null: make([]bool, P)}
+	ue := up(ec, function.UpperS)
+	for p := 0; p < P; p++ {
+		r := function.ConcatS(c06get(ue, p).ptr(), c06get(sc, p).ptr())
+		cat.null[p] = r == nil
+		if r != nil {
+			cat.s[p] = *r
+		}
+	}
+	vxCheckFrame(r2, []string{"e", "s", "u"}, []vxCol{ec, sc, cat}, ix, "upper(enum) + string")
+	r3 := f.Eval("e", Expr("lower", Expr("upper", types.ColumnName("s"))))
+	vxCheckFrame(r3, []string{"e", "s"}, []vxCol{up(up(sc, function.UpperS), function.LowerS), sc}, ix, "lower(upper(string)) onto an enum destination")
 	vx.Reach("end")
 }
